@@ -86,7 +86,11 @@ func presentations(x []byte, scratchA, scratchB []byte) (exact, a, b []byte) {
 	return exact, scratchA[:len(x)], scratchB[:len(x)]
 }
 
-type c15scratch struct{ a, b []byte }
+type c15scratch struct {
+	a, b []byte
+	// ph: one disassembler that lives as long as the worker and is handed every input in the same, reused buffer
+	ph *vm.ParseHandler
+}
 
 func newC15Scratch() *c15scratch {
 	return &c15scratch{a: make([]byte, 70000), b: make([]byte, 70000)}
@@ -110,6 +114,27 @@ func checkC15(x []byte, sc *c15scratch, c vk.Recorder, key string, runVM bool) {
 		c.Violate(sig, msg, key, map[string]interface{}{"bytes_hex": fmt.Sprintf("%x", trunc(x, 400)), "len": len(x), "class": class, "malformed_instruction": opAt})
 	}
 	exact, pa, pb := presentations(x, sc.a, sc.b)
+	// a long-lived disassembler, the input written in place into the buffer it was given last time (a reader that
+	// reuses its read buffer): its verdict and listing must be those of a fresh disassembler on a fresh slice
+	if len(x) > 0 {
+		if sc.ph == nil {
+			sc.ph = vm.NewParseHandler().WithDefaultHandlers()
+		}
+		var ts, tsf string
+		var terr, terrf error
+		pv, stack := vk.Guard(func() { ts, terr = sc.ph.ToString(pa) })
+		pvf, _ := vk.Guard(func() { tsf, terrf = vm.NewParseHandler().WithDefaultHandlers().ToString(exact) })
+		switch {
+		case pvf != nil:
+			sc.ph = nil // reported by the ParseAll leg below
+		case pv != nil:
+			sc.ph = nil
+			report("ToString(long-lived handler, reused buffer):"+vk.PanicSig(pv, stack)+":"+class, fmt.Sprintf("a long-lived ParseHandler panics (%v) on %s input in a reused buffer", pv, class))
+		case (terr != nil) != (terrf != nil) || terr == nil && ts != tsf:
+			sc.ph = nil
+			report("ToString(long-lived handler, reused buffer):differs-from-fresh:"+class, fmt.Sprintf("a long-lived ParseHandler given the input in the buffer it was given before answers (%q, err %v); a fresh one on a fresh slice (%q, err %v)", trunc([]byte(ts), 80), terr, trunc([]byte(tsf), 80), terrf))
+		}
+	}
 	for _, api := range []struct {
 		name string
 		f    func([]byte) c15res
